@@ -767,6 +767,28 @@ class ISMAGS:
             yield from cls._refine_node_partitions(graph, n_p, edge_colors, branch)
 
     @staticmethod
+    def _is_automorphism(graph, top_partitions, bottom_partitions, edge_colors):
+        """
+        Return True if mapping the single node of every top partition to the
+        single node of the corresponding bottom partition maps every edge of
+        `graph` on an edge of the same color.
+        """
+        def color_of(node1, node2):
+            if (node1, node2) in edge_colors:
+                return edge_colors[node1, node2]
+            return edge_colors[node2, node1]
+
+        mapping = {next(iter(top)): next(iter(bot))
+                   for top, bot in zip(top_partitions, bottom_partitions)}
+        for node1, node2 in graph.edges:
+            image1, image2 = mapping[node1], mapping[node2]
+            if not graph.has_edge(image1, image2):
+                return False
+            if color_of(node1, node2) != color_of(image1, image2):
+                return False
+        return True
+
+    @staticmethod
     def _find_permutations(top_partitions, bottom_partitions):
         """
         Return the pairs of top/bottom partitions where the partitions are
@@ -876,6 +898,13 @@ class ISMAGS:
         # BASECASE
         if all(len(top) == 1 for top in top_partitions):
             # All nodes are mapped
+            if not self._is_automorphism(graph, top_partitions,
+                                         bottom_partitions, edge_colors):
+                # Refining the top and bottom partitions independently can
+                # line up cells that are not equivalent. The candidate is
+                # then not a symmetry of the graph and must not be used to
+                # merge orbits.
+                return [], cosets
             permutations = self._find_permutations(top_partitions, bottom_partitions)
             self._update_orbits(orbits, permutations)
             if permutations:
